@@ -240,18 +240,40 @@ def spec_lb_connect(ck):
 
 
 def spec_lb_verify(ck):
+    """verify() at start-up: accepted => the member list is non-empty and EVERY member names a defined connector
+    (member selection later unwraps the lookup of whichever member it picks)"""
     fn = ck.find(lambda: ck.db.method('LoadBalanceConnector', 'verify', trait='Connector'), 'LoadBalanceConnector::verify')
     if fn is None:
         return
-    ex = ck.engine(loop_bound=3)
-    ex.benign_havoc = re.compile(r'.')
-    st = State()
     fields = ck.si.structs.get('LoadBalanceConnector', ['name', 'connectors', 'algorithm', 'idx', 'hash_by'])
-    lb = Agg('LoadBalanceConnector', {fields.index('connectors'): SeqV.from_items([], 'String', 'vec')})
-    outs = run_async(ex, st, fn, [Ref(st.alloc(lb), ()), Ref(st.alloc(Opaque('GlobalState', 'state')), ())])
-    for o, r in outs:
-        if o.status != 'returned' or r is None:
-            continue
-        ok, _ = _ok_payload(r)
-        ex.prove(o, 'C17/verify/empty-member-list-is-rejected-at-start-up', z3.Not(ok))
-    ck.absorb(ex, 'LoadBalanceConnector::verify', [o for o, _ in outs])
+    for n in (0, 1, 2, 3):
+        ex = ck.engine(loop_bound=n + 3)
+        ex.benign_havoc = BENIGN
+        ex.iter_bound = 4
+        st = State()
+        names = [Bytes.symbolic('member%d' % i, 'string') for i in range(n)]
+        defined = [z3.Bool('member%d_is_defined' % i) for i in range(n)]
+
+        def contains_key(ctx, names=names, defined=defined):
+            k = ctx.ex.deref(ctx.st, ctx.args[1])
+            for i, nm in enumerate(names):
+                if k is nm or (isinstance(k, Bytes) and k._at is nm._at):
+                    ctx.st.trace.append(('contains_key', i))
+                    return Bool(defined[i])
+            ctx.st.trace.append(('contains_key', None))
+            return Bool(z3.Bool(fresh_name('unknown_key')))
+        ex.overrides.append((re.compile(r'^HashMap::<(?:std::string::)?String, Arc<dyn Connector>>::contains_key::<'), contains_key))
+        lb = Agg('LoadBalanceConnector', {fields.index('connectors'): SeqV.from_items(names, 'String', 'vec')})
+        ex.inputs = dict(('member%d_is_defined' % i, defined[i]) for i in range(n))
+        outs = run_async(ex, st, fn, [Ref(st.alloc(lb), ()), Ref(st.alloc(Opaque('GlobalState', 'state')), ())])
+        for o, r in outs:
+            if o.status != 'returned' or r is None:
+                continue
+            ok, _ = _ok_payload(r)
+            if n == 0:
+                ex.prove(o, 'C17/verify/empty-member-list-is-rejected-at-start-up', z3.Not(ok))
+            else:
+                ex.prove(o, 'C18/verify/accepted-load-balancer-has-only-defined-members', z3.Implies(ok, z3.And(defined)))
+                ex.prove(o, 'C18/verify/load-balancer-with-all-members-defined-is-accepted', z3.Implies(z3.And(defined), ok))
+        ck.absorb(ex, 'LoadBalanceConnector::verify', [o for o, _ in outs])
+    ck.bounds['lb-verify'] = 'member lists of 0..3 names, each independently defined or not'
